@@ -2729,8 +2729,20 @@ static int32 validateCertsInner(psPool_t *pool, psX509Cert_t *subjectCerts,
  */
     if (issuerCerts == NULL)
     {
-        return psX509AuthenticateCert(pool, subjectCerts, NULL, foundIssuer,
+        rc = psX509AuthenticateCert(pool, subjectCerts, NULL, foundIssuer,
             hwCtx, poolUserPtr);
+        if (rc == PS_SUCCESS || rc == PS_CERT_AUTH_FAIL_EXTENSION ||
+            rc == PS_CERT_AUTH_FAIL_AUTHKEY)
+        {
+            /* The signatures verified.  The leaf must still be the
+               certificate of the peer the caller expects. */
+            if (checkExpectedName(subjectCerts, expectedName, opts) < 0 &&
+                rc == PS_SUCCESS)
+            {
+                rc = subjectCerts->authStatus;
+            }
+        }
+        return rc;
     }
 /*
     Case #2 is an issuing cert AND possibly a chain of subjectCerts.
